@@ -12,7 +12,7 @@ FORBIDDEN = re.compile(r'\bsorry\b|\badmit\b|^\s*axiom\s|\bnative_decide\b|\bbv_
                        r'\bunsafe\s|maxHeartbeats\s+0\b', re.M)
 # table groups that are projections of one generated file
 DUMPER_OF = {'ChainPow': 'Chain', 'ChainNet': 'Chain', 'ChainAddr': 'Chain'}
-NATIVE_OK_FILES = {'BtcVerif/Props/C11Native.lean'}
+NATIVE_OK_FILES = set()   # no file may use native_decide any more (C11's 3-4 substitution bound is kernel-checked in shards)
 
 
 def _strip_comments(src):
